@@ -35,7 +35,7 @@ V("C09", "results-dropped", "fire", "C09.R4", "grid results replaced by the scan
   (UL, "return obs_limit, exp_limits, (scan, results)", "return obs_limit, exp_limits, (scan, scan)"))
 V("C09", "rename-local", "silent", "", "rename a local variable",
   (UL, "    obs_limit, exp_limit, results = toms748_scan(", "    obs_limit, exp_limit, scan_results = toms748_scan("),
-  )
+  (UL, "        return obs_limit, exp_limit, results\n    return obs_limit, exp_limit", "        return obs_limit, exp_limit, scan_results\n    return obs_limit, exp_limit"))
 V("C09", "level-keyword", "silent", "", "pass level by keyword on the grid arm",
   (UL, "data, model, scan, level, return_results, **hypotest_kwargs\n        )", "data, model, scan, level=level, return_results=return_results, **hypotest_kwargs\n        )"))
 
